@@ -449,4 +449,34 @@ theorem atGo_spec_aux (n : Nat) : ∀ (S : RSet) (p : List Char), p.length ≤ n
 theorem atGo_spec (S : RSet) (p : List Char) (hN : NoNestedSuffix S) : AtSpec S p :=
   atGo_spec_aux p.length S p (Nat.le_refl _) hN
 
+
+/-! ### deciding the side condition -/
+
+theorem nestedSuffix_append (pre : List Tok) (s1 s2 : List Char) (t1 t2 : List Tok) (hne : s1 ≠ s2) :
+    nestedSuffix (pre ++ Tok.par s1 :: t1) (pre ++ Tok.par s2 :: t2) = (s1.isSuffixOf s2 || s2.isSuffixOf s1) := by
+  induction pre with
+  | nil => simp [nestedSuffix, hne]
+  | cons x pre ih =>
+    cases x with
+    | c ch => simp [nestedSuffix, ih]
+    | par s => simp [nestedSuffix, ih]
+    | star => simp [nestedSuffix, ih]
+
+theorem noNestedSuffix_of_check {S : RSet} (h : noNestedSuffixB S = true) : NoNestedSuffix S := by
+  intro pre s1 s2 t1 t2 i j h1 h2
+  by_cases e : s1 = s2
+  · exact Or.inl e
+  · right
+    unfold noNestedSuffixB at h
+    rw [List.all_eq_true] at h
+    have := h _ h1
+    rw [List.all_eq_true] at this
+    have := this _ h2
+    simp only [Bool.not_eq_eq_eq_not, Bool.not_true] at this
+    rw [nestedSuffix_append pre s1 s2 t1 t2 e] at this
+    simp only [Bool.or_eq_false_iff] at this
+    constructor
+    · intro hs; rw [← List.isSuffixOf_iff_suffix] at hs; rw [hs] at this; exact absurd this.1 (by simp)
+    · intro hs; rw [← List.isSuffixOf_iff_suffix] at hs; rw [hs] at this; exact absurd this.2 (by simp)
+
 end Pxv.Matchit
